@@ -452,6 +452,12 @@ def random_init_spec(r, regime="consistent", features=None):
     spec["_truth"] = truth
     spec["init_regime"] = regime
     perturb(r, spec, regime)
+    # setup weights strictly between 0 and 1 on some initialisation quantities: any positive weight makes the quantity one of the equations; it is NOT a licence to miss
+    # the databook value by tolerance/weight (decided from the spec, not from `r`)
+    import zlib as _z
+    for c in spec["comps"] + spec.get("characs", []):
+        if c.get("databook") and c.get("setup") is None and c.get("init") and _z.crc32((c["name"] + regime + repr(spec["settings"])).encode()) % 5 == 0:
+            c["setup"] = [0.5, 0.01, 0.25][_z.crc32(c["name"].encode()) % 3]
     # how the setup weights are written into the framework (derived from the spec, not from `r`, so that the random stream of older seeds is unchanged)
     import zlib
     spec["sw_mode"] = ["explicit", "blank", "nocolumn"][zlib.crc32(repr([(c["name"], c.get("default"), c.get("databook")) for c in spec["comps"]] + [regime, spec["settings"]]).encode()) % 3]
